@@ -191,7 +191,7 @@ def t_solver_entry_points_compare_values_between_the_compiled_modes_only():
     J, B = _ok(e, [1.0, 2.0]), _ok(e, [1.0, 2.0])
     # measured to reach a Newton kernel: the interpreter's values are iteration noise, its exceptions are not
     cl, st, _ = _clauses([J], [B], [_ok(e, [1.0, -4.0], k=["FKinSpace", "IKinSpaceConstrained"])])
-    assert cl == [] and st["worst"]["jit/nojit.solver:arm.IK"] == 1.5
+    assert cl == [] and st["worst"]["jit/nojit.solver_entry:arm.IK"] == 1.5
     assert st["outcomes"]["solver_entry_values_not_compared_with_interpreter"] == 1
     cl, _, _ = _clauses([J], [B], [_exc(e, "IndexError")])
     assert cl == [("interpreter_raises", "jit/nojit")]
@@ -202,8 +202,15 @@ def t_solver_entry_points_compare_values_between_the_compiled_modes_only():
     f = "e|arm:6R@I|g1|jacobian|-"
     cl, _, _ = _clauses([_ok(f, [1.0])], [_ok(f, [1.0])], [_ok(f, [1.0 + 2e-8], k=["JacobianSpace"])])
     assert cl == [("value_differs", "jit/nojit")]
-    k = "k|IKinSpace|0|C"
-    cl, _, _ = _clauses([_ok(k, [1.0])], [_ok(k, [1.0])], [_ok(k, [1.0 + 2e-8])])
+    k = "k|IKinSpace|0|C"                      # direct call of an iterative kernel: 1e-9 against the interpreter, 1e-12 between compiled modes
+    cl, _, v = _clauses([_ok(k, [1.0])], [_ok(k, [1.0])], [_ok(k, [1.0 + 2e-8])])
+    assert cl == [("value_differs", "jit/nojit")] and v[0]["tolerance"] == c17.SOLVER_KERNEL_REL
+    cl, _, _ = _clauses([_ok(k, [1.0])], [_ok(k, [1.0])], [_ok(k, [1.0 + 2e-11])])
+    assert cl == []
+    cl, _, _ = _clauses([_ok(k, [1.0])], [_ok(k, [1.0 + 2e-11])], [_ok(k, [1.0])])
+    assert cl == [("value_differs", "jit/boundscheck")]
+    k2 = "k|FKinSpace|0|C"
+    cl, _, _ = _clauses([_ok(k2, [1.0])], [_ok(k2, [1.0])], [_ok(k2, [1.0 + 2e-11])])
     assert cl == [("value_differs", "jit/nojit")]
     g = "e|arm:6R@I|g1|IKFree|0"
     cl, _, _ = _clauses([_ok(g, [1.0])], [_ok(g, [1.0])], [_ok(g, [1.0 + 2e-8], k=["FKinSpace", "Norm6"])])
